@@ -105,7 +105,7 @@ static std::vector<Z> rel_coeffs(int n, Family fam) {
   else if (fam == F_OCT) { a[i] = coin() ? 1 : -1; a[j] = coin() ? 1 : -1; }
   else {
     a[i] = coin() ? rnd(1, 3) : -rnd(1, 3); a[j] = coin() ? rnd(1, 3) : -rnd(1, 3);
-    if (n == 3 && coin(30)) { int k = 3 - i - j; a[k] = rnd(-2, 2); }
+    if (n >= 3 && coin(30)) { for (int k = 0; k < n; ++k) if (k != i && k != j) { a[k] = rnd(-2, 2); break; } }
   }
   return a;
 }
@@ -443,8 +443,11 @@ static void gen_wp(int n, WP& wp, bool for_grid) {
   }
 }
 
+// space dimension of a case: 1-3, occasionally 4 in thorough runs
+static int pick_dim() { return (hx::opt().thorough && coin(15)) ? 4 : rnd(1, 3); }
+
 static void case_wrap(const Entry& E, IDom& X) {
-  int n = rnd(1, 3);
+  int n = pick_dim();
   WP wp; gen_wp(n, wp, E.family == F_GRID);
   std::vector<bool> intdim(n, false); for (size_t i = 0; i < wp.vlist.size(); ++i) intdim[wp.vlist[i]] = true;
   int pct_unb = coin(20) ? 35 : 0;
@@ -550,7 +553,7 @@ static int exact_included(const Entry& E, int n, const Shadow& R, const Shadow& 
 }
 
 static void case_drop(const Entry& E, IDom& X) {
-  int n = rnd(1, 3);
+  int n = pick_dim();
   bool all = coin(30);
   std::vector<int> vlist; Variables_Set vars;
   if (!all) { for (int i = 0; i < n; ++i) if (coin(65)) vlist.push_back(i); if (vlist.empty() && !coin(6)) vlist.push_back(rnd(0, n - 1)); for (size_t i = 0; i < vlist.size(); ++i) vars.insert(Variable(vlist[i])); }
@@ -615,7 +618,7 @@ static void case_drop(const Entry& E, IDom& X) {
 }
 
 static void case_cip(const Entry& E, IDom& X) {
-  int n = rnd(1, 3);
+  int n = pick_dim();
   std::vector<bool> intdim(n, true);
   bool unb = coin(30);
   Arg A; gen_arg(E, n, intdim, 0, true, unb ? 40 : 0, true, A);
